@@ -304,8 +304,9 @@ TEMPLATES = [
     T("arg_map_rebind_ignored", A, ["f = |{x as _: {H}}| 1", "f {x: v}"], 1, group="map pattern"),
     T("arg_map_in_tuple", A, ["f = |(a, {x: {H}})| 1", "f (0, {x: v})"], 1, group="map pattern"),
     T("ret_implicit", A, ["f = |q| -> {H}", "  q", "f v"], 1, group="return"),
-    # 2: compile_frame repeats assert + Return after a trailing explicit `return` (dead code)
-    T("ret_explicit", A, ["f = |q| -> {H}", "  return q", "f v"], 2, group="return"),
+    # 1 since /repo fix 086fc95 (the frame's last expression is recognised as a `return`, so compile_frame
+    # no longer repeats assert + Return after it as dead code; before the fix this was 2)
+    T("ret_explicit", A, ["f = |q| -> {H}", "  return q", "f v"], 1, group="return"),
     T("ret_early", A, ["f = |q| -> {H}", "  if true", "    return q", "  q", "f v"], 2, group="return"),
     T("ret_inline", A, ["f = |q| -> {H} q", "f v"], 1, group="return"),
     T("ret_empty", A, ["f = || -> {H}", "  return", "f()"], 1, value=NULLV, group="return"),
@@ -460,8 +461,9 @@ def gen_return_template(rng):
     if runs_iff is None:
         c, runs = rng.chance(1, 2), True
     else:
-        # a bare `return` inside an un-taken `if` that is the function's last expression is left out: koto reads
-        # a register that was never set there (panic at vm.rs get_register / garbage result), with or without hints
+        # a bare `return` inside an un-taken `if` that is the function's last expression was left out when this
+        # family was written: koto fell out of the function body there (repaired in /repo by 086fc95; the shape is
+        # exercised by C02's generator)
         runs = rng.chance(3, 4) or (position == "last" and (not last_ok or bare))
         c = runs_iff if runs else (not runs_iff)
     body = [l.replace("{S}", stmt) for l in wlines]
